@@ -458,6 +458,7 @@ class Policy:
     inline_depth = 4
     track_aliases = False  # dictionaries read from object attributes remember their heap slot (mutation through the alias is visible)
     record_atoms = True  # remember the decision taken on an undecided test (path consistency)
+    param_writeback = True  # a container passed by name and mutated in place by an interpreted callee is seen by the caller
     loop_unroll = 2  # iterations explored for loops over non-concrete iterables
     max_cfgs = 20000
 
@@ -1187,6 +1188,25 @@ class Interp:
             return res
         if isinstance(node, ast.UnaryOp) and isinstance(node.op, ast.Not):
             return [(c, not t) for c, t in self.test(node.operand, cfg, out)]
+        if isinstance(node, ast.Compare) and len(node.ops) == 1 and isinstance(node.ops[0], (ast.Is, ast.IsNot, ast.Eq, ast.NotEq)):
+            # `bool(x) is <True/False>` is the truth test of x with a polarity
+            res = []
+            neg = isinstance(node.ops[0], (ast.IsNot, ast.NotEq))
+            handled = True
+            for c, (l, r) in [(c, tuple(vs)) for c, vs in self.ev_list([node.left, node.comparators[0]], cfg, out)]:
+                pair = None
+                for a, b, an in ((l, r, node.left), (r, l, node.comparators[0])):
+                    if isinstance(a, App) and a.op == "bool" and len(a.args) == 1 and isinstance(b, Const) and isinstance(b.v, bool):
+                        inner = an.args[0] if isinstance(an, ast.Call) and len(an.args) == 1 else an
+                        pair = (inner, a.args[0], b.v)
+                        break
+                if pair is None:
+                    handled = False
+                    break
+                for c1, t in self.truth(pair[0], pair[1], c):
+                    res.append((c1, (t == pair[2]) != neg))
+            if handled:
+                return res
         res = []
         for c, v in self.ev(node, cfg, out):
             res.extend(self.truth(node, v, c))
@@ -1823,7 +1843,17 @@ class Interp:
                     res.extend(self.call(node, fname, fval, args, kws, c2, out))
         return res
 
+    def held_name(self, node, fname, fval, cfg):
+        """A builtin or a module function held in a local (`convert = TABLE.get(code)`): the call is the call of what it holds."""
+        if isinstance(node.func, ast.Name) and node.func.id in cfg.env:
+            if isinstance(fval, Sym) and fval.tag and fval.tag[0] == "g" and isinstance(fval.tag[1], str):
+                return fval.tag[1]
+            if isinstance(fval, ClassV) and fval.name in self.BUILTIN_CLASSES:
+                return fval.name
+        return fname
+
     def call(self, node, fname, fval, args, kwargs, cfg, out):
+        fname = self.held_name(node, fname, fval, cfg)
         r = self.policy.call(self, node, fname, fval, args, kwargs, cfg, out)
         if r is not None:
             return r
@@ -1878,7 +1908,8 @@ class Interp:
             names = {p.arg for p in pos} | {p.arg for p in params.kwonlyargs}
             env[params.kwarg.arg] = DictV([(Const(k), v) for k, v in kwargs.items() if k not in names and not k.startswith("**")])
         caller_env = cfg.env
-        self.depth += 1
+        bump = 0 if id(fn) in getattr(self.policy, "free_inline", ()) else 1  # an interpreted helper of the unit itself does not use up inlining depth
+        self.depth += bump
         self.call_stack.append(fn)
         try:
             if isinstance(fn, ast.Lambda):
@@ -1892,7 +1923,7 @@ class Interp:
                 o = self.run_function(fn, env, cfg)
         finally:
             self.call_stack.pop()
-            self.depth -= 1
+            self.depth -= bump
         wb = self._writeback_params(node, fn, pos[1:] if (f.recv is not None and pos and not _is_static(fn)) else pos)
         res = []
         for c in o.get("return"):
@@ -2072,6 +2103,25 @@ class Interp:
                     return [(cfg, ListV([v for _, v in sorted(zip(keys, args[0].items), key=lambda kv: kv[0])], "list"))]
                 except TypeError:
                     pass
+        if fname == "dict.fromkeys" and len(args) in (1, 2) and not kwargs and isinstance(args[0], ListV) \
+                and not any(isinstance(x, App) and x.op == "more" for x in args[0].items):
+            d = DictV(())
+            for k in args[0].items:
+                d = d.set(k, args[1] if len(args) == 2 else NONE)
+            return [(cfg, d)]
+        if fname == "next" and len(args) in (1, 2) and not kwargs and isinstance(args[0], ListV) and args[0].kind in ("gen", "iter"):
+            items = list(args[0].items)
+            more = bool(items) and isinstance(items[-1], App) and items[-1].op == "more"
+            if items and not (more and len(items) == 1):
+                c2 = cfg
+                if isinstance(node.args[0], (ast.Name, ast.Attribute)):
+                    c2 = self.store_back(node.args[0], ListV(items[1:], args[0].kind), cfg)  # the iterator moves on
+                return [(c2, items[0])]
+            if not items:
+                if len(args) == 2:
+                    return [(cfg, args[1])]
+                out.add("raise", cfg.set("$exc", ExcV("StopIteration", f"next L{node.lineno}")))
+                return []
         if fname in ("any", "all") and len(args) == 1 and isinstance(args[0], ListV):
             truths = [self.static_truth(x, cfg) for x in args[0].items]
             if all(t is not None for t in truths):
